@@ -67,6 +67,8 @@ MUTANTS = [
     ("4-d plane indices swapped (seed C20c)", "AegeanTools/fits_tools.py",
      "            data = a[hdu_index].section[0, cube_index,",
      "            data = a[hdu_index].section[cube_index, 0,", "C20-R5"),
+    ("raw values divided by BSCALE", "AegeanTools/fits_tools.py",
+     "        data *= header['BSCALE']", "        data /= header['BSCALE']", "C20-R6"),
 ]
 TWINS = [
     ("explicit floor division helper", "AegeanTools/fits_tools.py",
@@ -350,6 +352,7 @@ def run(ctx):
                   "the returned data is not the [%s:%s] row slice" % (lo, hi),
                   node=s)
     r5_planes(ctx, prog)
+    r6_bscale(ctx, prog, fi)
 
 
 def _sliced_by(fnode, e, lo, hi, depth=0):
@@ -413,3 +416,43 @@ def r5_planes(ctx, prog, rule="C20-R5"):
                       "a degenerate leading axis)" %
                       (len(els), want, txt), node=x)
     ctx.floor(rule, n, 4, "3-d / 4-d section reads in the package")
+
+
+def r6_bscale(ctx, prog, fi):
+    """raw values are scaled exactly once: data *= BSCALE"""
+    from ..core import as_update
+    ctx.rule("C20-R6", "scaled inputs: the file is opened with "
+             "do_not_scale_image_data, and the raw values are multiplied by "
+             "header['BSCALE'] exactly once, under `'BSCALE' in header` "
+             "(band values equal the rows of the physical image)")
+    opens = [c for c in walk_no_nested(fi.node) if isinstance(c, ast.Call)
+             and norm(c.func).endswith("fits.open")]
+    raw = any(any(k.arg == "do_not_scale_image_data" and
+                  isinstance(k.value, ast.Constant) and k.value.value is True
+                  for k in c.keywords) for c in opens)
+    ups = []
+    for st in walk_no_nested(fi.node):
+        u = as_update(st)
+        if u is not None and "BSCALE" in u[2]:
+            ups.append((st, u))
+    if not raw:
+        # astropy scales on read: no manual scaling may follow
+        ctx.check("C20-R6", fi, "astropy scales the data; no manual BSCALE",
+                  not ups, "the data are scaled by astropy AND by %s" %
+                  [norm(s_, 50) for s_, _ in ups], node=fi.node)
+        return
+    ok = len(ups) == 1 and ups[0][1][1] is ast.Mult
+    pm = {}
+    for x in ast.walk(fi.node):
+        for ch in ast.iter_child_nodes(x):
+            pm[ch] = x
+    guarded = bool(ups) and isinstance(pm.get(ups[0][0]), ast.If) and \
+        "BSCALE" in norm(pm[ups[0][0]].test) and \
+        isinstance(pm[ups[0][0]].test, ast.Compare) and \
+        isinstance(pm[ups[0][0]].test.ops[0], ast.In)
+    ctx.check("C20-R6", fi, "raw values scaled once: %s" %
+              [norm(s_, 50) for s_, _ in ups], ok and guarded,
+              "with do_not_scale_image_data the loaded values are raw: they "
+              "must be MULTIPLIED by BSCALE once (found %s)" %
+              [norm(s_, 50) for s_, _ in ups], node=ups[0][0] if ups
+              else fi.node)
